@@ -69,6 +69,7 @@ type Program struct {
 	lazyRegions    bool
 	symbolicMake   bool
 	noWitness      bool
+	hashNoInj      bool // //verif:option hash-no-injectivity
 }
 
 func (p *Program) isRoot(pkg *ssa.Package) bool { return p.roots[pkg] }
@@ -372,8 +373,12 @@ func (P *Program) applyDirective(kind, rest string, cur *ssa.Package) error {
 				P.symbolicMake = true
 			case "no-region-merge":
 				P.regionMerge = false
+			case "big-cell-arrays":
+				P.maxAlloc = 1 << 21
 			case "no-witness":
 				P.noWitness = true
+			case "hash-no-injectivity":
+				P.hashNoInj = true
 			default:
 				return fmt.Errorf("unknown option %q", o)
 			}
